@@ -20,6 +20,7 @@ type encBlock struct {
 	On      string
 	DetInfo []string // DET findings inside this block (problems)
 	DetOK   []string // DET obligations discharged (map blocks)
+	IfForm  bool     // oneof written as guarded type assertions instead of a type switch
 }
 
 type encArm struct {
@@ -921,6 +922,32 @@ func extractMarshal(m *model.Msg) (*marshalModel, error) {
 			}
 			mm.Blocks = append(mm.Blocks, blk)
 			continue
+		}
+		// a oneof member as `if v, ok := x.O.(*W); ok && v != nil { … }`: consecutive ones over the same oneof form one block
+		if ok && is.Init != nil {
+			if onX, wrapper, vObj, isArm := oneofIfArm(info, is); isArm {
+				on, err := w.e.term(onX)
+				if err != nil {
+					return nil, wrapPos(m, is.Pos(), err)
+				}
+				arm := encArm{Wrapper: wrapper, Pos: is.Pos(), NilGuard: true}
+				saved := w.e
+				w.e = w.e.child()
+				w.e.set(vObj, "w")
+				out := &wout{}
+				err = w.stmts(is.Body.List, out, nil)
+				w.e = saved
+				if err != nil {
+					return nil, wrapPos(m, is.Pos(), err)
+				}
+				arm.Str = render(out.ws)
+				if n := len(mm.Blocks); n > 0 && mm.Blocks[n-1].Kind == "oneof" && mm.Blocks[n-1].On == on && mm.Blocks[n-1].IfForm {
+					mm.Blocks[n-1].Arms = append(mm.Blocks[n-1].Arms, arm)
+				} else {
+					mm.Blocks = append(mm.Blocks, &encBlock{Kind: "oneof", On: on, Pos: is.Pos(), Arms: []encArm{arm}, IfForm: true})
+				}
+				continue
+			}
 		}
 		// the unknown bytes copied without a guard: i -= len(x.unknownFields); copy(dAtA[i:], x.unknownFields)
 		// (copying a nil slice copies nothing, so this equals the guarded form)
